@@ -1287,6 +1287,7 @@ def check_prune_sites(ctx, f: FuncInfo, rule="PRUNE-sites"):
     k -= 1
   tail = body[k:]
   n = 0
+  guard_index = {}      # ground -> index of the last top-level statement that holds such a `return None`
   for r in sites:
     conds = list(_m.enclosing_conditions(r, f.node))
     txt = " && ".join(unparse(_m.inline_locals_deep(f.node, t)) if getattr(t, "_parent", None) is not None else unparse(t) for t, _p in conds)
@@ -1305,6 +1306,9 @@ def check_prune_sites(ctx, f: FuncInfo, rule="PRUNE-sites"):
     n += 1
     if kind is not None:
       ctx.ok(rule, key, ctx.where(f.module, r), kind)
+      ti = _top_index(f, r)
+      if ti is not None and kind in ("inactive at the offset", "another region"):
+        guard_index[kind] = max(guard_index.get(kind, -1), ti)
       continue
     # an unlisted ground: it may only anticipate the final rule
     elem_names = {p_ for p_ in f.params if p_ in ("element", "isd_element")} or {"element"}
@@ -1345,6 +1349,18 @@ def check_prune_sites(ctx, f: FuncInfo, rule="PRUNE-sites"):
       ctx.check(not bad, rule, key, ctx.where(f.module, r), "anticipates the final rule: drops only childless elements of kinds the final rule drops",
                 f"this `return None` is none of the grounds for leaving an element out of a snapshot (inactive, other region, display=none, the final emptiness rule) and it drops "
                 f"{', '.join(bad[:6])}: the parent then receives an incomplete child list (a ruby container without its base or text fails its content check) or content disappears")
+  # ... and nothing is handed to the snapshot before those two grounds were tested: every `return <element>` comes after the
+  # activity test and the region test
+  keeps = [r for r in own_nodes(f.node) if isinstance(r, ast.Return) and r.value is not None and not (isinstance(r.value, ast.Constant) and r.value.value is None)]
+  for r in keeps:
+    ti = _top_index(f, r)
+    if ti is None:
+      continue
+    early = [g for g, gi in guard_index.items() if ti <= gi]
+    n += 1
+    ctx.check(not early, rule, f"{f.qualname}|`{short(r, 40)}` comes after the activity and region tests", ctx.where(f.module, r), "after both tests",
+              f"`{short(r, 50)}` (line {getattr(r, 'lineno', '?')}) hands an element to the snapshot before the test for {' / '.join(early)} has run: "
+              "content that is not active at the offset, or that belongs to another region (or to none, in a document that has regions), shows up in the snapshot and in the cues")
   return n
 
 
